@@ -159,7 +159,25 @@ func c16Cases() []c16Case {
 		out = append(out, c16Case{Fault: "unknown test file", Where: a, Cmd: "renumber-tests", Args: []string{"util", "renumber-tests", a}, Tree: c16Base()},
 			c16Case{Fault: "unknown test file", Where: a, Cmd: "renumber-tests --check", Args: []string{"util", "renumber-tests", "-c", a}, Tree: c16Base()})
 	}
+	// every --all case again with entries beside the assembly files that a walk must step over
+	for _, c := range out {
+		if strings.Contains(c.Cmd, "--all") && !strings.HasPrefix(c.Cmd, "format") {
+			t := c.Tree.Clone()
+			for k, v := range c16Bystanders {
+				t[k] = v
+			}
+			c.Tree, c.Where = t, c.Where+", hidden and non-regular entries beside the files"
+			out = append(out, c)
+		}
+	}
 	return out
+}
+
+// c16Bystanders: hidden files and directories, links and other names inside the assembly directory.
+var c16Bystanders = core.Tree{
+	"regex-assembly/.gitkeep": "", "regex-assembly/.hidden/": "", "regex-assembly/.hidden/x.txt": "x\n", "regex-assembly/000-notes.txt": "notes\n",
+	"regex-assembly/include/.gitkeep": "", "regex-assembly/000-link": core.LinkPrefix + "include", "regex-assembly/000-dangling": core.LinkPrefix + "nowhere",
+	"regex-assembly/0-empty/": "", "rules/.gitkeep": "", ".git/HEAD": "ref: refs/heads/main\n",
 }
 
 type c16Res struct {
@@ -229,9 +247,13 @@ func C16(r *core.Run) {
 			}
 		}
 		// converse clause on the fault-free tree: exit 0 only with the complete result
-		if shard == 0 {
+		for bi, by := range []core.Tree{nil, c16Bystanders} {
+			if bi%n != shard {
+				continue
+			}
 			os.RemoveAll(sb)
 			c16Base().Materialise(sb)
+			by.Materialise(sb)
 			g := core.RunCLI(r.Crs, sb, "", nil, "-d", sb, "regex", "generate", "123456")
 			u := core.RunCLI(r.Crs, sb, "", nil, "-d", sb, "regex", "update", "--all")
 			conf, _ := os.ReadFile(filepath.Join(sb, "rules/REQUEST-123-TEST.conf"))
